@@ -42,6 +42,7 @@ type PingHeader struct {
 	AddrHash  crop.Hash         `cbor:"h,omitempty" json:"h,omitempty"`
 	KeyType   crop.KeyPairType  `cbor:"a,omitempty" json:"a,omitempty"`
 	PublicKey ed25519.PublicKey `cbor:"k,omitempty" json:"k,omitempty"`
+	Easing    uint64            `cbor:"e,omitempty" json:"e,omitempty"`
 }
 
 // PingHandler handles ping messages of a type.
@@ -159,6 +160,7 @@ func (r *Router) sendPingMsg(opts sendPingOpts) error {
 		AddrHash:  r.instance.Identity().Hash,
 		KeyType:   r.instance.Identity().Type,
 		PublicKey: r.instance.Identity().PublicKey,
+		Easing:    r.instance.Identity().Easing,
 	}
 	hdrData, err := cbor.Marshal(&hdr)
 	if err != nil {
@@ -301,6 +303,7 @@ func (r *Router) sessionFromPingHeader(f frame.Frame) (*state.Session, error) {
 		Hash:      hdr.AddrHash,
 		Type:      hdr.KeyType,
 		PublicKey: hdr.PublicKey,
+		Easing:    hdr.Easing,
 	}
 	if err := addr.VerifyAddress(); err != nil {
 		return nil, fmt.Errorf("ping header address data invalid: %w", err)
